@@ -36,7 +36,7 @@ PROPS = {
 
 PROPS["C19"] = {
     "level": "exploration",
-    "technique": "property-based testing (rapid): encode/decode round trip compared by canonical dump; decoder totality on mutated encodings and raw bytes with an EOF-counting reader in an isolated worker; thorough tier adds a native coverage-guided fuzz campaign (go test -fuzz) on Decode and on parse+round-trip with the same oracle",
+    "technique": "property-based testing (rapid): encode/decode round trip compared by canonical dump, through codec.Decoder and through the plugin entry point plugin.ReadLinterRequest; decoder totality on mutated encodings and raw bytes with an EOF-counting reader in an isolated worker; thorough tier adds a native coverage-guided fuzz campaign (go test -fuzz) on Decode and on parse+round-trip with the same oracle",
     "level_text": "Round trip over grammar-derived statements (one by one and as lists) with a structural inverse oracle, plus totality of Decode/ReadLinterRequest on byte-level mutations of valid encodings. Exploration: covers generated shapes only.",
     "campaigns": [rapid("rapid", 60000, 1500000), fuzz("fuzz-codec", "FuzzC19", 300)],
     "assumptions": [
